@@ -60,10 +60,46 @@ def rand_case(rng, memos=MEMOS, maxdim=9):
         c["clobber"] = 1
     if rng.random() < 0.3:
         c["layout"] = rng.choice(["F", "rev", "str", "T"])
+    from .c03 import decorate
+    decorate(rng, c)
     return c
 
 
+def weak_cases(rng, n_pairs):
+    """Grids in which two different 6x6 block windows (4x4 block + margin, r = 1) or two different 7x7 neighbourhoods
+    (r = 3) share a weak digest (harness/weak.py)."""
+    from .. import weak
+    out = []
+    for _ in range(n_pairs):
+        for (memo, r, size, anchors) in (("recursive_lit", 1, 6, [(3, 3), (7, 11)]), ("True", 3, 7, [(0, 0), (8, 8)])):
+            for kind in ("crc", "adler"):
+                R = C = 16
+                g = [[0] * C for _ in range(R)] if kind == "adler" else [[rng.randrange(2) for _ in range(C)] for _ in range(R)]
+                (r1, c1), (r2, c2) = anchors
+                a = [g[(r1 + i) % R][(c1 + j) % C] for i in range(size) for j in range(size)]
+                if kind == "crc":
+                    b = weak.crc_partner(a, list(range(len(a))), "int32")
+                    if b is None:
+                        continue
+                else:
+                    pr = weak.adler_partner(a, list(range(2, len(a) - 2)))
+                    if pr is None:
+                        continue
+                    a, b = pr
+                for idx in range(size * size):
+                    i, j = divmod(idx, size)
+                    g[(r1 + i) % R][(c1 + j) % C] = a[idx]
+                    g[(r2 + i) % R][(c2 + j) % C] = b[idx]
+                out.append(dict(kind="ev2", hist=[g], dtype="int32", scale=1, r=r, nb="moore", rule="hash:5:3:1:0", T=2, memo=memo))
+    return out
+
+
 def gen(ctx):
+    yield from weak_cases(ctx.rng, 1 if ctx.tier == "quick" else 6)
+    yield from _gen(ctx)
+
+
+def _gen(ctx):
     rng = ctx.rng
     # corpus: D2 (write-back for r != 1), D1, equal-bytes blocks of different shape
     yield dict(kind="ev2", hist=[[[0, 1, 0, 0], [0, 0, 1, 0], [1, 0, 0, 0], [0, 0, 0, 1]]], dtype="int32", scale=1, r=2,
